@@ -58,6 +58,21 @@ theorem rejected_no_trace_reach {cfg : Config} {stdRcs stdTraits : List Nat} (h1
     (h : 400 ≤ (step cfg db op).2.status) : core (step cfg db op).1 = core db :=
   rejected_no_trace cfg db op (reach_uniq h1 h2 hr).freshCons h
 
+/-- ... and in every state reachable by ANY requests (`Reach` of `Spec/Inv.lean`, no well-formedness
+assumption): the fresh consumer id stays above the ids in use under every request -/
+theorem freshCons_reach {cfg : Config} {stdRcs stdTraits : List Nat} {db : DB R}
+    (hr : Reach cfg stdRcs stdTraits db) : FreshCons db := by
+  have : Gens.Ids db.gcore := by
+    induction hr with
+    | init => exact ⟨List.nodup_nil, fun r hr => (by cases hr), List.nodup_nil, fun r hr => (by cases hr)⟩
+    | step db op _ ih => exact (Gens.step_genLe cfg ih op).ids
+  exact this.consFresh
+
+theorem rejected_no_trace_reach_any {cfg : Config} {stdRcs stdTraits : List Nat} {db : DB R}
+    (hr : Reach cfg stdRcs stdTraits db) (op : Op R)
+    (h : 400 ≤ (step cfg db op).2.status) : core (step cfg db op).1 = core db :=
+  rejected_no_trace cfg db op (freshCons_reach hr) h
+
 /-- **C04, residue**: the state after a rejected request is the state before it with (at most) the
 three name registries extended at the end and a larger fresh consumer id; in particular the registry
 of aggregate uuids and the fresh provider id are unchanged too. -/
